@@ -701,7 +701,7 @@ def check_empty_slots(repo, rep, bound=7):
                'empty slots, e.g. %s: the empty-slot spelling of those '
                'calls does not exist although the keyword spelling does' % (
                    label, len(bad_acc), len(cases), bad_acc[:4]),
-               loc=pmod.loc(pmod.func('Parser.p_arg_list').node),
+               loc=_arglist_loc(pmod),
                construct='; '.join(bad_acc[:3]))
         if interp_ok[0]:
             rep.ob('R12d', 'grammar[%s]/one-entry-per-slot' % label,
@@ -711,11 +711,21 @@ def check_empty_slots(repo, rep, bound=7):
                    'argument lists, e.g. %s: a later positional argument '
                    'binds to the wrong parameter' % (
                        label, len(bad_align), bad_align[:3]),
-                   loc=pmod.loc(pmod.func('Parser.p_arg_list').node),
+                   loc=_arglist_loc(pmod),
                    construct='; '.join(bad_align[:2]))
     rep.floor('argument-list shapes run through the LALR tables', n_total,
               500)
     return n_total
+
+
+def _arglist_loc(pmod):
+    """Where the `arglist` productions are written (for reports only)."""
+    for fi in pmod.functions.values():
+        doc = ast.get_docstring(fi.node) or ''
+        if fi.qualname.startswith('Parser.') and doc.strip().startswith(
+                'arglist'):
+            return pmod.loc(fi.node)
+    return pmod.loc(pmod.classes['Parser'].node)
 
 
 def check_call_kwargs_filter(repo, rep):
